@@ -6,7 +6,7 @@ STUBS = []
 OUTSIDE = ["smooth colliders (and with them the polytope-capacity assertion)", "rotation sweeps", "rounding"]
 BOUNDS = {"quick": "6 solid polytope pairs x 2-3 of 5 translation sweeps inside and across the overlap interval (B axis-aligned and in rational rotated orientations); exact oracle: facets of the Minkowski difference (scipy, once per base scene) give the penetration depth min_k(h_k - n_k.c(t)) as a piecewise-linear function of the sweep parameter",
           "thorough": "the same 6 pairs x all 5 sweeps"}
-WALL_BUDGET = {"quick": 420, "thorough": 900}
+WALL_BUDGET = {"quick": 300, "thorough": 600}
 EXPECTED_EXCEPTIONS = ()
 # EPA/MPR expansion is numerically chaotic at the exactly degenerate placements the sweeps pass through: the float code and
 # the exact-arithmetic path legitimately end in different (each self-consistent) polytopes, so outputs at a path witness
